@@ -6,10 +6,20 @@
    a struct) therefore zigzag-encodes every int / int32 / int64 field of the nested message (transitively through
    nested structs and pointers, not through slices and maps, whose codecs restart from wantzero), whereas the
    descriptor [fields_of] (TypeOf) gives those nested fields the plain varint types.
-   Smallest witness: struct { A struct { X int } `protobuf:"bytes,1,zigzag"` } with X = 1 is written 0a 02 08 02; the
-   specification reads X = 2.
-   What is proved (Qed, no axioms) is [marshal_standard_zz]: the statement with the extra hypothesis
-   [zz_ok t = true]: where a zigzag flag is inherited, the int-kind fields carry the zigzag tag themselves. *)
+   Smallest witness: struct { A struct { X int } } with the tag (bytes, number 1, zigzag) on A, and X = 1: the package
+   writes 0a 02 08 02, which the specification reads as X = 2.
+   What is proved (Qed, no axioms) is [marshal_standard_zz]: the same statement with the extra hypothesis
+   [zz_ok t = true]: wherever a zigzag flag is inherited, the int-kind fields below carry the zigzag tag themselves
+   (in particular: no zigzag tag on struct-typed fields). At the level of types the hypothesis is also necessary: an
+   int-kind field that inherits the flag without carrying the tag is misread as soon as it holds 1.
+
+   Structure: Part 1 record layer on canonical encodings (get_varint / get_record / records on varint, chunk);
+   Part 2 dec_value on a message = records then merge_records; Part 3 [pty c zz], the protobuf type a codec writes
+   when called with zigzag bit zz, [Run] (a byte string parsed and merged into a message), of_pval on structs;
+   Parts 4-7 [Eprop] by induction over [cwf] (scalars, pointers, struct fields, the two passes, slices, maps):
+   the specification reads the chunk(s) [enc] writes as a value denoting the Go value, up to nil-versus-empty;
+   Part 8 [pty (codec_of t) = ptype_of t] under tags_sane / zz_ok (numbering by pigeonhole on the 16-bit numbers);
+   Part 9 the theorem. *)
 From Coq Require Import ZArith List Bool Lia.
 From Verif Require Import Base.GoInt Proto.Ext Generated.ProtoGen Proto.Model Proto.PrimSpec Proto.PrimProofs Proto.Spec Proto.WireSpec Proto.DecProofs Proto.RoundTrip.
 From Coq Require Import ZifyBool.
@@ -1147,8 +1157,8 @@ Proof.
   assert (Hnum' : nums_fs (cfields r (number + 1)) = true).
   { destruct (fcodec tg ft number). cbn [nums_fs] in Hnum. apply andb_true_iff in Hnum. apply Hnum. }
   f_equal.
-  - apply pf_of_fcodec; try assumption. lia.
-  - apply IH; try assumption; lia.
+  - apply pf_of_fcodec; try assumption. clear - Hn Hn0 Hlr. lia.
+  - apply IH; try assumption; clear - Hn Hn0 Hlr; lia.
 Qed.
 
 Lemma cfields_length : forall gfs number, fsok gfs = true -> length (cfields gfs number) = length gfs.
@@ -1220,8 +1230,12 @@ Proof.
   rewrite codec_of_struct in *. rewrite pty_struct, ptype_of_struct in HT.
   unfold of_msg. change (fields_of (TStruct gfs)) with (pfields gfs 1). injection HT as HT'. rewrite <- HT'.
   inversion Hc as [? ? Hsc | | | | inl fs gfs' Hty' Hd Hcw Hsh]; subst; [discriminate Hsc|].
-  destruct (E_struct_run _ _ _ Hty' Hd Hcw Hsh (fun f Hin => E_all _ _ (Hcw f Hin)) vs (ptr_flags top_flags) Hty Hwf Hrep Hkd Hnm)
+  destruct (E_struct_run (inlined_ty (TStruct gfs)) _ _ Hty' Hd Hcw Hsh (fun f Hin => E_all _ _ (Hcw f Hin)) vs (ptr_flags top_flags) Hty Hwf Hrep Hkd Hnm)
     as (m & r & (recs & Hr & Hm) & Hof & Hn); [unfold frange; vm_compute; split; congruence | exact Hlim |].
   change (has (ptr_flags top_flags) proto_zigzag) with false in *.
   exists m, r. split; [|split; assumption]. unfold spec_decode. rewrite dec_value_msg, Hr, Hm. reflexivity.
 Qed.
+
+(* the witness of marshal_standard_refuted is exactly what [zz_ok] excludes *)
+Lemma zz_ok_witness : zz_ok zz_ty = false.
+Proof. reflexivity. Qed.
